@@ -463,10 +463,15 @@ class _Extract:
         for x in ast.walk(fn):
             if isinstance(x, ast.ExceptHandler) and x.name:
                 locals_.add(x.name)
+            elif isinstance(x, (ast.Import, ast.ImportFrom)):
+                for a in x.names:
+                    locals_.add((a.asname or a.name).split(".")[0])
         new_helpers = []
 
-        def visit_list(body, bound_before):
-            """bound_before: locals certainly assigned when control reaches the start of this list"""
+        def visit_list(body, bound_before, handler_reads=frozenset()):
+            """bound_before: locals certainly assigned when control reaches the start of this list;
+            handler_reads: names read by the handlers / finally blocks of the try statements this list is (part of) the body of - a run that assigns one of them
+            cannot be moved into a function (if it raises half-way, the handler would no longer see the assignments made so far)"""
             bound = set(bound_before)
             i = 0
             while i < len(body):
@@ -480,7 +485,7 @@ class _Extract:
                 done = False
                 if len(run) >= 2:
                     self.n += 1
-                    if self.n % self.every == 0:
+                    if self.n % self.every == 0 and not (set(self.names(run, ast.Store)) & handler_reads):
                         done = self.try_extract(fn, cls, selfname, body, i, j, bound, locals_, new_helpers)
                 if done:
                     st = body[i]
@@ -499,9 +504,12 @@ class _Extract:
                             for it in st.items:
                                 if it.optional_vars is not None:
                                     inner |= set(self.names([it.optional_vars], ast.Store))
-                        visit_list(sub, inner)
+                        hr = handler_reads
+                        if isinstance(st, ast.Try) and field == "body":
+                            hr = handler_reads | set(self.names([x for h in st.handlers for x in h.body] + st.finalbody + st.orelse, ast.Load))
+                        visit_list(sub, inner, hr)
                 for h in getattr(st, "handlers", []):
-                    visit_list(h.body, set(bound) | ({h.name} if h.name else set()))
+                    visit_list(h.body, set(bound) | ({h.name} if h.name else set()), handler_reads)
                 if isinstance(st, (ast.Assign, ast.AugAssign, ast.With, ast.Import, ast.ImportFrom)):
                     if isinstance(st, ast.Assign):
                         for nm in self.names(st.targets, ast.Store):
@@ -510,6 +518,9 @@ class _Extract:
                         for it in st.items:
                             if it.optional_vars is not None:
                                 bound |= set(self.names([it.optional_vars], ast.Store))
+                    elif isinstance(st, (ast.Import, ast.ImportFrom)):
+                        for a in st.names:
+                            bound.add((a.asname or a.name).split(".")[0])
                 i += 1
         visit_list(fn.body, set(params))
         return new_helpers
@@ -591,11 +602,19 @@ def twin_extract_methods(tree, relpath, every=3):
                 if isinstance(m, ast.FunctionDef):
                     for helper, is_method in ex.function(m, n):
                         if is_method or not _mangled_private_use(helper):
-                            (n.body if is_method else tree.body).append(helper)
+                            if is_method:
+                                n.body.append(helper)
+                            else:
+                                tree.body.insert(tree.body.index(n), helper)
                         else:
                             n.body.append(ast.FunctionDef(name=helper.name, args=helper.args, body=helper.body, decorator_list=[ast.Name(id="staticmethod", ctx=ast.Load())],
                                                           returns=None, type_comment=None, type_params=[]))
         elif isinstance(n, ast.FunctionDef):
             for helper, _ in ex.function(n, None):
-                tree.body.append(helper)
+                tree.body.insert(tree.body.index(n), helper)     # before its caller: module-level functions may run while the module is imported
     return tree
+
+
+TWINS2.append(("extract-method-on-every-third-run-of-simple-statements", twin_extract_methods))
+TWINS2.append(("extract-method-on-every-second-run-of-simple-statements", lambda tree, relpath: twin_extract_methods(tree, relpath, every=2)))
+TWINS2.append(("extract-method-on-every-run-of-simple-statements", lambda tree, relpath: twin_extract_methods(tree, relpath, every=1)))
